@@ -45,11 +45,40 @@ type placeholder struct {
 	Num         int  `json:"num"`
 }
 
-func (p *Parser) deconstructPacket(rv reflect.Value, numBuffers *int) (buffers [][]byte, err error) {
-	return p.deconstructValue(rv, numBuffers)
+// While a packet is encoded, binary values are temporarily replaced (in place) by their placeholders.
+// restorer collects how to put the caller's values back once the JSON part is written.
+type restorer struct {
+	undo []func()
 }
 
-func (p *Parser) deconstructValue(rv reflect.Value, numBuffers *int) (buffers [][]byte, err error) {
+func (r *restorer) add(f func()) {
+	if r != nil {
+		r.undo = append(r.undo, f)
+	}
+}
+
+func (r *restorer) restore() {
+	for i := len(r.undo) - 1; i >= 0; i-- {
+		r.undo[i]()
+	}
+	r.undo = nil
+}
+
+// Remember the current content of a settable value, to put it back later.
+func (r *restorer) remember(rv reflect.Value) {
+	if r == nil {
+		return
+	}
+	prev := reflect.New(rv.Type()).Elem()
+	prev.Set(rv)
+	r.add(func() { rv.Set(prev) })
+}
+
+func (p *Parser) deconstructPacket(rv reflect.Value, numBuffers *int, r *restorer) (buffers [][]byte, err error) {
+	return p.deconstructValue(rv, numBuffers, r)
+}
+
+func (p *Parser) deconstructValue(rv reflect.Value, numBuffers *int, r *restorer) (buffers [][]byte, err error) {
 	k := rv.Kind()
 	original := rv
 	if k == reflect.Interface || k == reflect.Ptr {
@@ -72,7 +101,7 @@ func (p *Parser) deconstructValue(rv reflect.Value, numBuffers *int) (buffers []
 			sl := rv.Len()
 			for i := 0; i < sl; i++ {
 				el := rv.Index(i)
-				b, err := p.deconstructValue(el, numBuffers)
+				b, err := p.deconstructValue(el, numBuffers, r)
 				if err != nil {
 					return nil, err
 				}
@@ -90,7 +119,7 @@ func (p *Parser) deconstructValue(rv reflect.Value, numBuffers *int) (buffers []
 				return nil, errBinaryCannotBeAPtr
 			}
 
-			buf, err := p.deconstructBinaryValue(rv, original, numBuffers, nil)
+			buf, err := p.deconstructBinaryValue(rv, original, numBuffers, nil, r)
 			if err != nil {
 				return nil, err
 			}
@@ -103,18 +132,19 @@ func (p *Parser) deconstructValue(rv reflect.Value, numBuffers *int) (buffers []
 			ne := reflect.New(rv.Type())
 			el := ne.Elem()
 			el.Set(rv)
+			r.remember(original)
 			original.Set(ne)
 			rv = el
 		}
 
-		b, err := p.deconstructStruct(rv, numBuffers)
+		b, err := p.deconstructStruct(rv, numBuffers, r)
 		if err != nil {
 			return nil, err
 		}
 		buffers = append(buffers, b...)
 
 	case reflect.Map:
-		b, err := p.deconstructMap(rv, numBuffers)
+		b, err := p.deconstructMap(rv, numBuffers, r)
 		if err != nil {
 			return nil, err
 		}
@@ -129,6 +159,7 @@ func (p *Parser) deconstructBinaryValue(
 	original reflect.Value,
 	numBuffers *int,
 	customSetter func([]byte) error,
+	r *restorer,
 ) (buf []byte, err error) {
 	if rv.CanInterface() {
 		sb, ok := rv.Interface().(socketIOBinary)
@@ -152,11 +183,13 @@ func (p *Parser) deconstructBinaryValue(
 					return nil, err
 				}
 			} else if rv.CanSet() {
+				r.remember(rv)
 				rv.SetBytes([]byte(pBuf))
 			} else {
 				if !original.CanSet() {
 					return nil, &ValueError{err: errNonSettableValue, Value: rv}
 				}
+				r.remember(original)
 
 				n := reflect.MakeSlice(rv.Type(), len(pBuf), len(pBuf))
 				b := n.Bytes()
@@ -175,7 +208,7 @@ func (p *Parser) deconstructBinaryValue(
 	return
 }
 
-func (p *Parser) deconstructStruct(rv reflect.Value, numBuffers *int) (buffers [][]byte, err error) {
+func (p *Parser) deconstructStruct(rv reflect.Value, numBuffers *int, r *restorer) (buffers [][]byte, err error) {
 	nf := rv.NumField()
 
 	for i := 0; i < nf; i++ {
@@ -191,7 +224,7 @@ func (p *Parser) deconstructStruct(rv reflect.Value, numBuffers *int) (buffers [
 			continue
 		}
 
-		b, err := p.deconstructValue(fv, numBuffers)
+		b, err := p.deconstructValue(fv, numBuffers, r)
 		if err != nil {
 			return nil, err
 		}
@@ -201,7 +234,7 @@ func (p *Parser) deconstructStruct(rv reflect.Value, numBuffers *int) (buffers [
 	return
 }
 
-func (p *Parser) deconstructMap(rv reflect.Value, numBuffers *int) (buffers [][]byte, err error) {
+func (p *Parser) deconstructMap(rv reflect.Value, numBuffers *int, r *restorer) (buffers [][]byte, err error) {
 	iter := rv.MapRange()
 	for iter.Next() {
 		mk := iter.Key()
@@ -225,11 +258,12 @@ func (p *Parser) deconstructMap(rv reflect.Value, numBuffers *int) (buffers [][]
 
 				x := reflect.New(mv.Type())
 				x.Elem().Set(n)
+				r.add(func() { rv.SetMapIndex(mk, original) })
 				rv.SetMapIndex(mk, x)
 				return nil
 			}
 
-			buf, err := p.deconstructBinaryValue(mv, original, numBuffers, set)
+			buf, err := p.deconstructBinaryValue(mv, original, numBuffers, set, r)
 			if err != nil {
 				return nil, err
 			}
@@ -237,7 +271,7 @@ func (p *Parser) deconstructMap(rv reflect.Value, numBuffers *int) (buffers [][]
 			continue
 		}
 
-		b, err := p.deconstructValue(mv, numBuffers)
+		b, err := p.deconstructValue(mv, numBuffers, r)
 		if err != nil {
 			return nil, err
 		}
